@@ -2,10 +2,10 @@ package sym
 
 import (
 	"fmt"
-	"strings"
 	"go/constant"
 	"go/token"
 	"go/types"
+	"strings"
 	"unicode/utf8"
 
 	"golang.org/x/tools/go/ssa"
